@@ -394,6 +394,10 @@ type site struct {
 	callee *calleeInfo
 	obj    *types.Func
 	recv   ast.Expr // receiver expression for method calls
+	// a promoted method (declared on an embedded struct): the implicit field path
+	// from recv to the receiver proper (".writeCursor"), and that field's type
+	recvPath string
+	recvType types.Type
 }
 
 func (in *inliner) siteOf(e ast.Expr) *site {
@@ -410,13 +414,31 @@ func (in *inliner) siteOf(e ast.Expr) *site {
 		}
 	case *ast.SelectorExpr:
 		sel := info.Selections[f]
-		if sel == nil || sel.Kind() != types.MethodVal || len(sel.Index()) != 1 {
+		if sel == nil || sel.Kind() != types.MethodVal {
 			return nil
 		}
 		obj, _ := sel.Obj().(*types.Func)
-		if ci := in.callees[obj]; ci != nil && (!ci.hasDefer || in.deferOK) {
-			return &site{call: call, callee: ci, obj: obj, recv: f.X}
+		ci := in.callees[obj]
+		if ci == nil || (ci.hasDefer && !in.deferOK) {
+			return nil
 		}
+		st := &site{call: call, callee: ci, obj: obj, recv: f.X}
+		if idx := sel.Index(); len(idx) > 1 {
+			t := info.TypeOf(f.X)
+			for _, k := range idx[:len(idx)-1] {
+				if pt, ok := t.Underlying().(*types.Pointer); ok {
+					t = pt.Elem()
+				}
+				stt, ok := t.Underlying().(*types.Struct)
+				if !ok || k >= stt.NumFields() {
+					return nil
+				}
+				st.recvPath += "." + stt.Field(k).Name()
+				t = stt.Field(k).Type()
+			}
+			st.recvType = t
+		}
+		return st
 	}
 	return nil
 }
@@ -722,7 +744,12 @@ func (in *inliner) initSite(init ast.Stmt) *site {
 	switch x := init.(type) {
 	case *ast.AssignStmt:
 		if len(x.Rhs) == 1 {
-			if st := in.siteOf(x.Rhs[0]); st != nil && ast.Unparen(x.Rhs[0]) == ast.Expr(st.call) {
+			// the call itself, or the first call evaluated inside it (`err := idx.Load(w.records())`)
+			st := in.siteOf(x.Rhs[0])
+			if st == nil || ast.Unparen(x.Rhs[0]) != ast.Expr(st.call) {
+				st = in.firstCall(x.Rhs[0])
+			}
+			if st != nil {
 				for _, l := range x.Lhs {
 					if !in.pure(l) {
 						return nil
@@ -733,6 +760,9 @@ func (in *inliner) initSite(init ast.Stmt) *site {
 		}
 	case *ast.ExprStmt:
 		if st := in.siteOf(x.X); st != nil && ast.Unparen(x.X) == ast.Expr(st.call) {
+			return st
+		}
+		if st := in.firstCall(x.X); st != nil {
 			return st
 		}
 	}
@@ -793,7 +823,7 @@ func (in *inliner) hoistHeader(file *ast.File, st *site, s ast.Stmt, fname strin
 	var initResidual string
 	callInInit := init != nil
 	if callInInit {
-		if _, isExpr := init.(*ast.ExprStmt); isExpr {
+		if es, isExpr := init.(*ast.ExprStmt); isExpr && ast.Unparen(es.X) == ast.Expr(st.call) {
 			exp, ok = in.expand(file, st, s.Pos(), "discard", nil)
 		} else {
 			if res.Len() == 0 {
@@ -946,6 +976,10 @@ func (in *inliner) expand(file *ast.File, st *site, at token.Pos, mode string, t
 		rtxt := types.TypeString(rt, qual)
 		argT := info.TypeOf(st.recv)
 		expr := in.text(callerFile, st.recv.Pos(), st.recv.End())
+		if st.recvPath != "" {
+			argT = st.recvType
+			expr += st.recvPath
+		}
 		_, wantPtr := rt.(*types.Pointer)
 		_, havePtr := argT.Underlying().(*types.Pointer)
 		if _, isNamedPtr := argT.(*types.Pointer); isNamedPtr {
